@@ -76,7 +76,7 @@ type Table map[string]Routes
 // connections.
 func hostpath(prefix string) (host string, path string) {
 	if strings.HasPrefix(prefix, ":") {
-		return prefix, ""
+		return strings.ToLower(prefix), ""
 	}
 
 	// host names are case-insensitive and are stored in lower case
